@@ -752,3 +752,114 @@ pub fn float_pi_exact<F: Fl>(count: u64, seed: u64) {
         drop(alive);
     }
 }
+
+/// C15 on FLOAT events, for the exact pass `TraceOrderExact.tla`: two edges leaving one common vertex P to the same side
+/// (two left events or two right events at one point), most of them NEARLY collinear - the second far end is a float
+/// multiple of the first direction, off the line by a rounding error - i.e. the two edges at the tip of a valid sliver.
+/// Each record is one real evaluation of Ord::cmp in both directions (and of compare_segments for left events);
+/// the coordinates are recorded as bit patterns, the verdict is decided exactly on them by TLC.
+pub fn float_order_exact<F: Fl>(count: u64, seed: u64) {
+    let mut rng = Rng::new(seed);
+    let f32_ = F::NAME == "f32";
+    let r = |rng: &mut Rng, lo: i64, hi: i64| rng.range(lo, hi) as f64;
+    let rf = |x: f64| F::from_f64(x).to_f64();      // rounded to the float type under test
+    for id in 1..=count {
+        let mode = rng.below(10);
+        let bits = if f32_ { 20 } else { 50 };
+        // a direction with a full mantissa
+        let fullm = |rng: &mut Rng| -> f64 { (rng.range(1, 1 << 30) as f64 * 2f64.powi(-30) + rng.range(0, 1 << 22) as f64 * 2f64.powi(-52)) * if rng.chance(1, 2) { 1.0 } else { -1.0 } };
+        let (p, q1, q2): ((f64, f64), (f64, f64), (f64, f64));
+        match mode {
+            0..=3 => {
+                // tip at the origin: q2 = s * q1, rounded
+                let v = (rf(fullm(&mut rng)), rf(fullm(&mut rng)));
+                let s = 0.25 + rng.range(1, 1 << 20) as f64 * 2f64.powi(-19);
+                p = (0.0, 0.0);
+                q1 = v;
+                q2 = (rf(v.0 * s), rf(v.1 * s));
+            }
+            4 | 5 => {
+                // the sliver of small perturbations: (0,0), (1, 1+e), (1+e, 1+2e) and relatives: q1 = (a, a + j e), q2 = (a + k e, a + l e)
+                let e = 2f64.powi(-(rng.range(bits / 2 + 2, bits) as i32));
+                let a = r(&mut rng, 1, 4);
+                p = (0.0, 0.0);
+                q1 = (rf(a), rf(a + r(&mut rng, -3, 3) * e));
+                q2 = (rf(a + r(&mut rng, -3, 3) * e), rf(a + r(&mut rng, -3, 3) * e));
+            }
+            6 => {
+                // tip away from the origin: q = p + v, p + s v (rounded)
+                let pp = (rf(r(&mut rng, -8, 8) + fullm(&mut rng)), rf(r(&mut rng, -8, 8) + fullm(&mut rng)));
+                let v = (fullm(&mut rng), fullm(&mut rng));
+                let s = 0.25 + rng.range(1, 1 << 20) as f64 * 2f64.powi(-19);
+                p = pp;
+                q1 = (rf(pp.0 + v.0), rf(pp.1 + v.1));
+                q2 = (rf(pp.0 + s * v.0), rf(pp.1 + s * v.1));
+            }
+            7 => {
+                // exactly collinear (small integers): same operand = not a valid input (not judged), different operands = subject first
+                let pp = (r(&mut rng, -50, 50), r(&mut rng, -50, 50));
+                let v = (r(&mut rng, -20, 20), r(&mut rng, -20, 20));
+                let m = r(&mut rng, 2, 5);
+                p = pp;
+                q1 = (pp.0 + v.0, pp.1 + v.1);
+                q2 = (pp.0 + m * v.0, pp.1 + m * v.1);
+            }
+            _ => {
+                // general position
+                p = (r(&mut rng, -900, 900), r(&mut rng, -900, 900));
+                q1 = (r(&mut rng, -900, 900), r(&mut rng, -900, 900));
+                q2 = (r(&mut rng, -900, 900), r(&mut rng, -900, 900));
+            }
+        }
+        // a random lattice symmetry, then a power-of-two frame (both exact)
+        let t = rng.below(8) as u32;
+        let e = if f32_ { rng.range(-30, 30) } else { rng.range(-200, 200) };
+        let sc = 2f64.powi(e as i32);
+        let tf = |p: (f64, f64)| -> (f64, f64) {
+            let q = match t {
+                0 => p,
+                1 => (-p.0, p.1),
+                2 => (p.0, -p.1),
+                3 => (-p.0, -p.1),
+                4 => (p.1, p.0),
+                5 => (-p.1, p.0),
+                6 => (p.1, -p.0),
+                _ => (-p.1, -p.0),
+            };
+            (q.0 * sc, q.1 * sc)
+        };
+        let (p, q1, q2) = (tf(p), tf(q1), tf(q2));
+        let lex = |p: (f64, f64), q: (f64, f64)| p.0 < q.0 || (p.0 == q.0 && p.1 < q.1);
+        if p == q1 || p == q2 || q1 == q2 {
+            continue;
+        }
+        // both edges must leave P to the same side of the sweep
+        let left = lex(p, q1);
+        if lex(p, q2) != left {
+            continue;
+        }
+        let sa = rng.chance(1, 2);
+        let sb = if rng.chance(1, 2) { sa } else { !sa };
+        let c = |p: (f64, f64)| Coord { x: F::from_f64(p.0), y: F::from_f64(p.1) };
+        let mk = |q: (f64, f64), subj: bool, cid: u32| {
+            let o = SweepEvent::new_rc(cid, c(q), !left, Weak::new(), subj, true);
+            let a = SweepEvent::new_rc(cid, c(p), left, Rc::downgrade(&o), subj, true);
+            o.set_other_event(&a);
+            (a, o)
+        };
+        let (a, oa) = mk(q1, sa, 1);
+        let (b, ob) = mk(q2, sb, if sa == sb { 1 } else { 2 });
+        let code = |f: &dyn Fn() -> std::cmp::Ordering| -> i64 { std::panic::catch_unwind(std::panic::AssertUnwindSafe(f)).map(|o| ord_code(o) as i64).unwrap_or(-9) };
+        let (c1, c2) = (code(&|| a.cmp(&b)), code(&|| b.cmp(&a)));
+        let (s1, s2) = if left { (code(&|| compare_segments(&a, &b)), code(&|| compare_segments(&b, &a))) } else { (0, 0) };
+        let hx = |v: F| format!("\"{:016x}\"", v.to_f64().to_bits());
+        let pt = |e: &Rc<SweepEvent<F>>| format!("[{},{}]", hx(e.point.x), hx(e.point.y));
+        // anti-vacuity counter: is the pair collinear for a NAIVE cross product in the float type under test?
+        let (d1, d2) = ((oa.point.x - a.point.x, oa.point.y - a.point.y), (ob.point.x - a.point.x, ob.point.y - a.point.y));
+        let nc = d1.0 * d2.1 == d1.1 * d2.0;
+        println!(
+            "{{\"id\":{},\"mode\":{},\"F\":\"{}\",\"nc\":{},\"left\":{},\"sa\":{},\"sb\":{},\"p\":{},\"oa\":{},\"ob\":{},\"c1\":{},\"c2\":{},\"s1\":{},\"s2\":{}}}",
+            id, mode, F::NAME, nc, left, sa, sb, pt(&a), pt(&oa), pt(&ob), c1, c2, s1, s2
+        );
+    }
+}
